@@ -86,11 +86,12 @@ def makeSafeName (name : Name) : Name :=
 
 /-- `_SAFE_ENDING` = `(.+?)\s*\.?\s*$` on a stripped string: drop trailing blanks, then one optional
 dot, then blanks again — but keep at least one character. -/
+def dropDot : Name → Name
+  | '.' :: rest => rest.dropWhile isWs
+  | r => r
+
 def safeEnding (s : Name) : Name :=
-  let r := (s.reverse.dropWhile isWs)
-  let r1 := match r with
-    | '.' :: rest => rest.dropWhile isWs
-    | _ => r
+  let r1 := dropDot (s.reverse.dropWhile isWs)
   if r1.isEmpty then
     -- `(.+?)` needs one character: the shortest admissible group is the first character
     s.take 1
